@@ -9,7 +9,8 @@ THEOREMS = ["Sb.C18.eval_deriv", "Sb.C18.eval_scale", "Sb.C18.eval_addConstant",
             "Sb.C18.makeLinear_eval", "Sb.C18.makeLinear_ends", "Sb.C18.makeLinear_tiny", "Sb.C18.makeBezier_duration", "Sb.C18.makeBezier_const",
             "Sb.C18.makeBezier_two", "Sb.C18.makeBezier_length", "Sb.C18.solve_linear", "Sb.C18.idealSolve3_correct",
             "Sb.C18.touches3_shortcut_above", "Sb.C18.touches3_shortcut_below", "Sb.C18.cubic_deriv_nonneg",
-            "Sb.C18.touches4_shortcut_above", "Sb.C18.touches4_shortcut_below", "Sb.C01.makeBezier_eq_bernstein"]
+            "Sb.C18.touches4_shortcut_above", "Sb.C18.touches4_shortcut_below", "Sb.C01.makeBezier_eq_bernstein",
+            "Sb.Corr.Cert.pos_sound", "Sb.Corr.Cert.root_sound", "Sb.Corr.Cert.segs_cover", "Sb.Corr.Cert.segs_roots", "Sb.Corr.Cert.partition_complete", "Sb.Corr.Cert.partition_sound", "Sb.Corr.Cert.reachesCert_true", "Sb.Corr.Cert.reachesCert_false", "Sb.Corr.Cert.hasRootCert_true", "Sb.Corr.Cert.hasRootCert_false", "Sb.Corr.Cert.rootsCert_complete", "Sb.Corr.Cert.rootsCert_sound", "Sb.Corr.Cert.sqrt2Segs_ok"]
 RULE = ("coefficient / control-point vectors of length 0..8 (and 9, 10 for the clamping of sb_poly_make), magnitudes {1, 10, 1e3, 1e6}, "
         "integers and arbitrary floats, evaluation points in [-2,2] incl. 0, ±1, ±2; stretch factors and durations with magnitude in "
         "[1/64, 64] of both signs plus durations below FLT_EPSILON for make_linear; scale factors and constants incl. 0 and negatives. "
@@ -18,7 +19,7 @@ RULE = ("coefficient / control-point vectors of length 0..8 (and 9, 10 for the c
         "at interior extrema (double roots), outside the range, and on integer polynomials with exactly representable multiple roots; "
         "degree 4..7 only for the 'unimplemented' answers. Non-trivial: at least one coefficient.")
 ASSUMPTIONS = ["float32 rounding of the implementation is bounded by the per-operation error bounds written in Sb/Corr/PolyOps.lean",
-               "root finding (sqrtf/cbrtf/cpowf) is judged by the exact Sturm-sequence oracle with the tolerances rootTol=1/100, residTol=1/500, extTol=1/20000 (calibrated, DESIGN.md C18)"]
+               "root finding (sqrtf/cbrtf/cpowf) is judged by the exact real-root oracle (answers certified, Sb/Proofs/CertSound.lean) with the tolerances rootTol=1/100, residTol=1/500, extTol=1/20000 (calibrated, DESIGN.md C18)"]
 
 
 def fb(x):
